@@ -1,6 +1,6 @@
 (* C19, deterministic part: theorems about the bit-reader instance of the model, for every list
    of words the source may return, every oracle, every history and BOTH values of the F8 switch. *)
-From Coq Require Import ZArith List Bool Lia Arith.
+From Coq Require Import ZArith List Bool Lia Arith Permutation.
 Import ListNotations.
 From Mds Require Import Gen.DistinctConst Distinct.DistinctModel Distinct.DistinctSpec.
 Local Open Scope Z_scope.
@@ -448,6 +448,51 @@ Section Det.
     pose proof (step_add_inv _ _ _ _ _ _ _ _ _ Hs H) as Hsh. unfold DistinctModel.len.
     pose proof (insert_length v (buf s)) as Hil. pose proof (remove_length v (buf s)) as Hrl.
     destruct Hsh as [H1 H2 H3 H4|H1 H2 H3 H4|H1 H2 H3 H4 H5 H6 H7 H8 H9]; try rewrite H2; lia.
+  Qed.
+  (* pinned variant: the threshold reaches 0 after 64 halvings and then every coin fails (every
+     word is >= 0), so nothing is inserted and no further pass happens: k <= 64 on every run *)
+  Theorem k_bound fuel cap ws ops s ws' :
+    run true fuel cap init ws ops = ROk s ws' -> (k s <= 64)%nat.
+  Proof.
+    revert s ws'. induction ops as [|o r IH] using rev_ind; intros s ws' H.
+    - cbn in H. inversion H; subst. cbn. lia.
+    - rewrite run_app in H. destruct (run true fuel cap init ws r) as [s1 ws1|] eqn:Hr; [|discriminate].
+      specialize (IH _ _ eq_refl). pose proof (run_Inv _ _ _ _ _ _ _ _ Hr Inv_init) as HI.
+      cbn [DistinctModel.run] in H.
+      destruct (step true fuel cap s1 ws1 o) as [s2 ws2|] eqn:Hs; [|discriminate]. inversion H; subst.
+      destruct o as [v o|].
+      + pose proof (step_add_inv _ _ _ _ _ _ _ _ _ Hs HI) as Hsh.
+        destruct Hsh as [H1 H2 H3 H4|H1 H2 H3 H4|H1 H2 H3 H4 H5 H6 H7 H8 H9]; try lia.
+        rewrite (H7 eq_refl). destruct (Nat.eq_dec (k s1) 64) as [He|He]; [|lia].
+        exfalso. destruct HI as [_ Hp]. rewrite He in Hp.
+        replace (Z.shiftr maxu (Z.of_nat 64)) with 0 in Hp by (vm_compute; reflexivity).
+        destruct H2 as [[w Hw]|Hge]; [lia|]. rewrite Hp in Hge. vm_compute in Hge. apply Hge. reflexivity.
+      + cbn in Hs. inversion Hs; subst. cbn. lia.
+  Qed.
+
+  (* the reference count is the usual one: for a stream of Adds, [distinct] is the length of the
+     standard library's duplicate-free version of the stream *)
+  Lemma seen_adds_In : forall vs acc x,
+    In x (seen_from acc (DistinctSpec.adds T vs)) <-> In x acc \/ In x vs.
+  Proof.
+    induction vs as [|v vs IH]; intros acc x; cbn; [tauto|].
+    rewrite IH, In_insert. split; intros H; intuition.
+  Qed.
+
+  Lemma seen_from_NoDup_det : forall ops acc, NoDup acc -> NoDup (seen_from acc ops).
+  Proof.
+    induction ops as [|[v o|] r IH]; intros acc H; cbn; [assumption| |apply IH; constructor].
+    apply IH. apply NoDup_insert. assumption.
+  Qed.
+
+  Theorem distinct_adds_nodup (dec : forall x y : T, {x = y} + {x <> y}) vs :
+    distinct (DistinctSpec.adds T vs) = length (nodup dec vs).
+  Proof.
+    unfold DistinctSpec.distinct, DistinctSpec.seen.
+    apply Permutation.Permutation_length. apply Permutation.NoDup_Permutation.
+    - apply seen_from_NoDup_det. constructor.
+    - apply NoDup_nodup.
+    - intros x. rewrite seen_adds_In, nodup_In. cbn. tauto.
   Qed.
 End Det.
 
